@@ -58,6 +58,19 @@ CHECKS = {
             "map is compared field by field with the model's; maps decoded from fixtures, mutated fixtures and noise are validated by "
             "TLC against the same well-formedness predicate.",
             "DESIGN.md 3/C06", "TLA+ model checking (TLC) + spec-to-impl replay of every enumerated file + trace validation"),
+    "C07": ("spec/Dispatch.tla + MC_Dispatch.tla; harness dispatch-replay", "model_checking",
+            "The three conversion entry points are three operators whose agreement, own-mode identity, 'only unconverted osu maps "
+            "convert and get flagged' and the try_mode decision table are invariants over ALL conversion histories up to a bound from "
+            "all four native modes; every history is replayed on real maps (outcome kinds incl. error payloads, equal maps, untouched "
+            "originals), and every dispatch api (calculate_for_mode, strains_for_mode, gradual constructors with a mode, try_mode / "
+            "mode_or_ignore from borrowed / owned maps and attributes) is compared bitwise with the explicitly converted map.",
+            "DESIGN.md 3/C07", "TLA+ model checking (TLC) + spec-to-impl replay of every conversion history"),
+    "C19": ("spec/Convert.tla + MC_Convert.tla + TraceConvert.tla; harness convert-replay / convert-record", "model_checking",
+            "The mania key-count rule is a decision table checked exhaustively (range 4..7 or the key mod) and replayed row by row on "
+            "concretised maps; conversions of generated id-carrying maps (all object mixes, slider lengths/repeats, sounds, timing "
+            "setups, versions 5-14, key mods 1K-10K) and fixture windows are recorded and TLC validates each against the well-formedness "
+            "predicates (order, durations, taiko originals keep order and their own sound, catch untouched, mania columns, control points).",
+            "DESIGN.md 3/C19", "TLC decision-table check + replay, and trace validation of recorded conversions"),
 }
 
 NOT_YET = {
